@@ -210,6 +210,9 @@ struct vf_alloc {
   T *allocate(size_type n) {
     if (!(FL & VF_A_NOTHROW) && vf_fault(VF_K_ALLOC)) throw vf_exc{2};
     vf_assert((uint64_t)n <= (uint64_t)max_size(), "C12: allocator asked for more than max_size() elements");
+#if defined(VF_MINHEAP) && !defined(VF_FORCE_CONSTANT_EVALUATED)
+    vf_assert((uint64_t)n >= (uint64_t)(VF_MINHEAP), "C04: allocate() called for no more elements than fit the inline buffer");
+#endif
     return static_cast<T *>(vf_allocate(ledger_id(), (uint64_t)n, sizeof(T)));
   }
   void deallocate(T *p, size_type n) noexcept { vf_deallocate(ledger_id(), p, (uint64_t)n, sizeof(T)); }
